@@ -15,6 +15,7 @@ ENTRIES = [
 def run(chk, tier):
     prog, info = common.program("all")
     common.note_extraction(chk, info, prog)
+    common.vacuity(chk, ['R-PANIC'])
     chk.explanation = ("R-PANIC: every Assert terminator (overflow, bounds, division), every call into the panic family, every unwrap/expect and every "
                        "partial library function reachable from the decode entry points (including the derived serde visitors and the Debug/Display "
                        "impls formatted on error paths) is an obligation, discharged by interval analysis over value-numbered terms; an unclassified "
